@@ -102,6 +102,8 @@ func customOps(l *Log) map[string]eval.Operator {
 			logCall("zf", ps, false, nil)
 			return false, nil
 		},
+		// f (not declared stateless) and p (declared stateless) are deliberately two closures of ONE function literal:
+		// they share a code pointer, so anything that identifies operators by code pointer conflates them
 		"f": ident("f"),
 		"p": ident("p"),
 		"g": func(_ *eval.Ctx, ps []eval.Value) (eval.Value, error) {
